@@ -22,8 +22,8 @@ THEOREMS = [
     "Typedpy.C13.none_first_equiv", "Typedpy.C13.none_inner_optional", "Typedpy.C13.hasNoneOpt_position",
     "Typedpy.C13.tuple_single_equiv", "Typedpy.C13.none_default_equiv",
     "Typedpy.C13.factory_default_equiv", "Typedpy.C13.fixed_factory_builtin_class",
-    "Typedpy.C13.scope_irrelevant", "Typedpy.C13.string_annotation_equiv", "Typedpy.C13.counterexample_quoted_future",
-    "Typedpy.C13.counterexample_quoted_50", "Typedpy.C13.counterexample_enclosing_scope",
+    "Typedpy.C13.scope_irrelevant", "Typedpy.C13.string_annotation_equiv", "Typedpy.C13.fixed_quoted_future",
+    "Typedpy.C13.fixed_quoted_50", "Typedpy.C13.counterexample_enclosing_scope",
     "Typedpy.C13.same_observation",
     "Typedpy.C13.same_serialize",
     "Typedpy.C13.same_deserialize",
@@ -31,13 +31,15 @@ THEOREMS = [
     "Typedpy.C13.behaviour_example",
     "Typedpy.C13.struct_field_equiv",
     "Typedpy.C13.tuple_pair_equiv",
-    "Typedpy.C13.counterexample_tuple_items_struct",
-    "Typedpy.C13.counterexample_struct_first_nested",
+    "Typedpy.C13.fixed_tuple_items_struct",
+    "Typedpy.C13.fixed_struct_first_nested",
     "Typedpy.C13.elaborate_flatten",
     "Typedpy.C13.flatten_equiv",
     "Typedpy.C13.elabField_flatten",
     "Typedpy.C13.flatten_example",
     "Typedpy.C13.union_duplicate_collapses",
+    "Typedpy.C13.explicit_required_equiv",
+    "Typedpy.C13.explicit_required_example",
     "Typedpy.C13.equiv_example",
 ]
 RULE = ("class bodies of 1-3 fields; each field an abstract meaning tree (scalar / constrained field literal / bare or "
@@ -66,11 +68,22 @@ RULE = ("class bodies of 1-3 fields; each field an abstract meaning tree (scalar
         "type names / one function deeper / below the function that defines them, with evaluated, future-import or "
         "QUOTED annotations (random, plus a directed stream enumerating the 4 x 4 product); function-scope modules are "
         "written to disk and imported; which names an enclosing-scope string annotation cannot resolve is read off "
-        "Python's own code object (co_freevars); reference = evaluated annotations at module level")
+        "Python's own code object (co_freevars); reference = evaluated annotations at module level. "
+        "Structure classes of a fixed pool (Owner, Point; one helper module imported by every variant) are field types in the MODELLED "
+        "stream: as leaves of random meanings and in a directed stream (alone / optional / alternative on either side / element of list, "
+        "tuple, deque, dict / in two-element tuples, every style incl. `a = Owner`, `items=Owner`, `Owner | None`, `Array[Owner | None]`), "
+        "with instance values in the shared stream. Two-element tuples (tuple[X, Y] / typing.Tuple / Tuple[X, Y] / Tuple(items=[X, Y])) are "
+        "random meaning nodes. A REQUIRED field with a None alternative (typedpy spellings, no _optional) is written by annotation and by "
+        "assignment (random 15% of None-admitting fields + directed). `_required = [...]` is written out in 12% of the variants (exactly the "
+        "required names, shuffled, sometimes also a defaulted name; redundant _optional entries dropped). Pairwise oracle: definition outcome, "
+        "field set, _required, defaults, factory probe, constructor + Serializer on the stream, Deserializer round trip of the first "
+        "serialized instances, structure_to_schema. Oracle-only streams also cover date / time types (8 families) and mutable defaults (4 families)")
 ASSUMPTIONS = [
-    "vocabulary: int/str/float/bool/Any, list/set/frozenset/deque/single-argument tuple and their typing aliases, dict/Dict/Map, Optional/Union/AnyOf/|, "
-    "constrained Integer/Float/Number/String/Enum literals; multi-argument tuples, date/time and Structure-valued fields are not in the spelling grammar",
-    "defaults are immutable scalar literals (int/str/float/bool) and the literal `= None` (validated, but not a default afterwards); `default=None` (= no default), callable and mutable defaults are outside the modelled domain",
+    "vocabulary: int/str/float/bool/Any, list/set/frozenset/deque/single- and two-argument tuple and their typing aliases, dict/Dict/Map, Optional/Union/AnyOf/|, "
+    "constrained Integer/Float/Number/String/Enum literals, Structure classes of a fixed pool; tuples of three or more elements, date/time types (oracle-only stream) are not in the spelling grammar",
+    "defaults are immutable scalar literals (int/str/float/bool), the literal `= None` (validated, but not a default afterwards) and default factories; `default=None` (= no default) and mutable "
+    "defaults (oracle-only stream, open finding) are outside the modelled domain",
+    "the Structure classes named by spellings live in one helper module (all variants and the value stream share the class objects); field names of a class body are distinct",
     "the class source is executed in a module registered in sys.modules (what the future-annotations eval needs), at module level or inside functions of that module; function-scope modules are real files imported through importlib",
     "Python 3.12 typing semantics (Union flattening / de-duplication, no callable check on arguments)",
 ]
